@@ -219,7 +219,8 @@ func writeSchedules(run *vk.Run, id *age.X25519Identity, seed int64) {
 		}
 		b, prob := encryptWith(id, seed, w.P[:n], []int{n}, armored, "")
 		if prob != "" {
-			vk.Infra("reference encryption failed: %s", prob)
+			// the single-write encryption itself misbehaves (e.g. a short count on a successful write)
+			run.Violation(fmt.Sprintf("C12:write:single-write/total=%d/armor=%v", n, armored), fmt.Sprintf("encrypting %d bytes with one Write: %s", n, prob), map[string]interface{}{"check": "C12.write", "sizes": []int{n}, "armored": armored})
 		}
 		refs[k] = b
 		return b
